@@ -23,8 +23,8 @@ SCR = '/var/tmp/selftest'
 
 def load_mutants():
     M = {}
-    for f in ('mutants.py', 'mutants2.py'):
-        p = os.path.join(VERIF, 'notes', 'mutants', f)
+    for f in ('mutants/mutants.py', 'mutants/mutants2.py', 'harmless/harmless.py'):
+        p = os.path.join(VERIF, 'notes', f)
         if os.path.exists(p):
             ns = {}
             exec(open(p).read(), ns)
@@ -86,6 +86,10 @@ def do_seed(path, props, tier):
         shutil.rmtree(d, ignore_errors=True)
 
 
+def claimed():
+    return [c['property_id'] for c in json.load(open(os.path.join(VERIF, 'MANIFEST.json')))['checks']]
+
+
 def main():
     ap = argparse.ArgumentParser()
     ap.add_argument('names', nargs='*')
@@ -99,8 +103,8 @@ def main():
     for n in a.names:
         for k in sorted(M):
             if k.startswith(n + '_') or k == n:
-                m = re.match(r'M\d+_(C\d+)_', k)
-                props = a.props.split(',') if a.props else [m.group(1)]
+                m = re.match(r'[MH]\d+_(C\d+|ALL)_', k)
+                props = a.props.split(',') if a.props else ([m.group(1)] if m.group(1) != 'ALL' else claimed())
                 jobs.append(('m', k, M[k], props))
     for s in a.seed:
         jobs.append(('s', s, None, a.props.split(',') if a.props else None))
